@@ -4,6 +4,9 @@
 # reference inflate) on every real `qpdf --linearize` output over generated documents and corpus files x
 # object-stream modes x encryption x stream-data modes; `qpdf --check-linearization` silent;
 # `qpdf --show-linearization` values = the decoded hint tables.
+# The checker's page needs include what a page still inherits through /Parent (clauses 512 / 535); the shared-object identifiers of
+# every page are also computed by the model of calculateLinearizationData's last loop (coq/Lin/SharedIds.v, theorems c07sh_*) from the users
+# found in the file and compared with the file's table (corr:C07:shared-identifiers).
 # Tie: the model of qpdf's hint encoder (coq/Lin/Hints.v) must reproduce the real hint stream byte for byte from
 # the quantities found in the file; BitWriter/BitStream of libqpdf.a vs the model on random operation lists;
 # parameter-dictionary text / 200-byte padding / 21-character /Prev / pass-1 offsets vs the arithmetic model.
@@ -12,7 +15,8 @@ import common, filecheck, pdfgen
 from pdfgen import Name, Ref, Str, Real, Stream, D, N
 
 ASSUMPTIONS = [
-    "the Annex F checker is the specification (written from ISO 32000-1 Annex F, Tables F.1, F.3-F.7); 'objects a page needs' is read as: everything reachable from the page object without passing through /Parent, /Thumb or another page object; an object inside an object stream is located by its object stream",
+    "the Annex F checker is the specification (written from ISO 32000-1 Annex F, Tables F.1, F.3-F.7); 'objects a page needs' is read as: everything reachable from the page object without passing through /Parent, /Thumb or another page object, plus - when the page has no entry of its own for /Resources, /MediaBox, /CropBox or /Rotate - the nearest ancestor /Pages node that has one and whatever that value references (ISO 32000-1 7.7.3.4); an object inside an object stream is located by its object stream",
+    "api-sequences: histories of public QPDF / QPDFWriter calls on one QPDF object are outside the property's quantifier (inputs x command-line configurations); they are run because the writer and the checker share cached state, and their outputs are judged by the same clauses",
     "hint streams of encrypted outputs are encrypted: the hint-table clauses are judged on unencrypted outputs only, the parameter-dictionary / offset / ordering clauses on all; in encrypted outputs that use object streams the page tree may be unreadable, then /O and /N are not judged either (listed as notes)",
     "items 6-9 of the page offset hint table header and items 6-7 per page (content stream offset/length) and the shared-object numerators are decoded but not judged (qpdf follows Acrobat, PDF Reference 1.7 implementation notes 126-127)",
     "overflow hint streams, thumbnail and the other optional hint tables are outside (qpdf never writes them)",
@@ -909,8 +913,7 @@ def build_jobs(chk, wd):
     return inputs, jobs
 
 
-def part_files(chk, runner):
-    wd = common.workdir("C07")
+def part_files(chk, runner, wd):
     inputs, jobs = build_jobs(chk, wd)
 
     def runjob(i):
@@ -1019,9 +1022,15 @@ def part_files(chk, runner):
         if c_rc != 0 or b"no linearization errors" not in c_so or b"WARNING" in c_se:
             # a damaged corpus input (write exit 3) may leave streams that cannot be decoded (e.g. a broken encryption dictionary: the hint
             # stream is then unreadable for qpdf); what is not tolerated is a complaint about the linearization data or the file structure
+            # (the location prefix "(xref stream: object 3 0, offset 393)" of a warning is not part of its message)
             tolerated = (inp["kind"] == "corpus" and rc == 3 and c_rc == 3 and
-                         not re.search(rb"mismatch|not linearized|file is damaged|xref|compressed|hint table", c_se + c_so))
-            if not tolerated:
+                         not re.search(rb"mismatch|not linearized|file is damaged|xref|compressed|hint table", re.sub(rb"\([^()\n]*?offset \d+\)", b"", c_se) + c_so))
+            # encryption preserved from a dictionary without /Length (C06-F7): the output cannot be decrypted, with or without --linearize
+            if (inp["kind"] == "corpus" and rc == 3 and cfg[0] == "none" and b"/Encrypt" in data and
+                    b"dictionary key /Length: operation for integer attempted on object of type null" in res[i][1]):
+                chk.violation(dict(case, kind="property-fails-on-implementation", part="check-linearization", why="encryption preserved from an encryption dictionary without /Length: the output cannot be decrypted",
+                                   check_exit=c_rc, stderr=c_se.decode("latin-1")[-400:]), signature="lin:preserved-encryption-without-length")
+            elif not tolerated:
                 chk.violation(dict(case, kind="property-fails-on-implementation", part="check-linearization", why="qpdf --check-linearization does not accept the file silently",
                                    check_exit=c_rc, stdout=c_so.decode("latin-1")[-300:], stderr=c_se.decode("latin-1")[-400:]),
                               signature=("lin:encrypt-trailer-string-damaged" if cfg[0] != "none" and not xref_stream and trailer_has_direct_string(data) and rep["errors"] and rep["errors"][0][0] == 1
@@ -1073,10 +1082,10 @@ def part_files(chk, runner):
     pp["pages_distribution"] = sorted(set(inp["npages"] for inp in inputs if inp["npages"]))
 
 
-def part_qdf(chk, runner):
+def part_qdf(chk, runner, top):
     """--qdf together with --linearize, in both orders: the manual (cli.rst, --qdf) says "--linearize disables QDF mode", so the output has to be an
     ordinary linearized file. Known to fail on the pinned tree (C07-QDF-LINEARIZE); re-observed on every run."""
-    wd = os.path.join(common.workdir("C07"), "qdf")
+    wd = os.path.join(top, "qdf")
     os.makedirs(wd, exist_ok=True)
     docs = [("pair", pair_doc("pages-only", "none")), ("pd", pdfgen.page_doc(3, marker="Q", kids_levels=2))]
     cases = []
@@ -1105,14 +1114,14 @@ def part_qdf(chk, runner):
 API_OPS = ["check", "islin", "pages", "push", "wplain", "wlind", "wling"]
 
 
-def part_api(chk, drv, runner):
+def part_api(chk, drv, runner, top):
     """public-API histories on one QPDF object that end in a linearized write (drv_lin.cc: linapi). Inputs: generated documents, their
     CLI-linearized forms (with and without object streams) and linearized files of other producers from the repository corpus (indirect /Length).
     The output of every history must satisfy the same clauses as a CLI output. Histories in which checkLinearization() or an earlier linearized
     write has filled the object-user maps are known to fail (C07-API-STALE-USER-MAPS): they are run and reported under that signature."""
     rng = chk.rng
     quick = chk.tier == "quick"
-    wd = os.path.join(common.workdir("C07"), "api")
+    wd = os.path.join(top, "api")
     os.makedirs(wd, exist_ok=True)
     base = [("pair", pair_doc("outline-dest", "use")), ("inh", inh_doc(rng, 2, {0: {b"MediaBox": "direct", b"CropBox": "indirect"}, 1: {b"Rotate": "direct", b"Resources": "indirect"}}, npages=5)),
             ("pd", pdfgen.page_doc(4, marker="A", kids_levels=2, rotate={1: 90}))]
@@ -1161,8 +1170,11 @@ def part_api(chk, drv, runner):
         rep, (c_rc, c_so, c_se) = repmap[out]
         data = open(out, "rb").read()
         for e in rep["errors"]:
+            sig = signature_of(e, rep, b"/Type /XRef" in data)       # a deviation the CLI output has as well keeps its own signature
+            if stale and chk.known_match(sig) is None:
+                sig = "lin:api:stale-user-maps"
             chk.violation(dict(case, kind="property-fails-on-implementation", part="api-sequences", clause=e[0], why=CLAUSE.get(e[0], "clause %s" % e[0]), measured_or_expected=e[1], stated_or_found=e[2],
-                               raw=rep.get("raw")), signature="lin:api:stale-user-maps" if stale else signature_of(e, rep, b"/Type /XRef" in data))
+                               raw=rep.get("raw")), signature=sig)
         if c_rc != 0 or b"no linearization errors" not in c_so or b"WARNING" in c_se:
             chk.violation(dict(case, kind="property-fails-on-implementation", part="api-sequences", why="qpdf --check-linearization does not accept the file silently",
                                check_exit=c_rc, stderr=c_se.decode("latin-1")[-300:]), signature="lin:api:stale-user-maps" if stale else "lin:api:check-linearization")
@@ -1175,14 +1187,16 @@ def run(chk):
     chk.cov["rule"] = ("linearized-outputs: (input, configuration) pairs; inputs = generated documents (1..40 pages; features drawn from shared/private resources, thumbnails, "
                        "outlines with and without /PageMode /UseOutlines, AcroForm, threads, viewer preferences, open action, names, metadata, info, two-level page tree with "
                        "inherited attributes, indirect resources, several content streams, link annotations; original /ID of length none/0/5/16/32), pdfgen.page_doc documents, "
-                       "2-page documents padded to the 2^16 offset boundary, sharing-shape documents (an object of the first page also used by another page's thumbnail / its own thumbnail / a later page / a later page's annotation / outlines / names / AcroForm / open action / threads / viewer preferences / another catalog key / info), 1..3-page documents whose last first-page object is swept in 30-byte steps across [2^16 - 60, 2^16 + hint length + 60] (thorough: also 2^24, judged by a Python-side xref-stream oracle), repository corpus files; configurations = {5 encryption settings} x {disable,preserve,generate} x "
+                       "2-page documents padded to the 2^16 offset boundary, sharing-shape documents (an object of the first page also used by another page's thumbnail / its own thumbnail / a later page / a later page's annotation / outlines / names / AcroForm / open action / threads / viewer preferences / another catalog key / info), 1..3-page documents whose last first-page object is swept in 30-byte steps across [2^16 - 60, 2^16 + hint length + 60] (thorough: also 2^24, judged by a Python-side xref-stream oracle), user-pair documents (6 pages; an indirect object used by a second user K - outline item /A, /Dest or other entry, /Names, another catalog key, /Info, /OpenAction, /AcroForm, /Threads, /ViewerPreferences, another page's /Thumb, the page's own /Thumb, none - and by exactly one later page / two later pages / the first and a later page, outline tree absent, present, or opened with the document by /PageMode /UseOutlines), inherited-attribute documents (page trees of 1..3 levels; each of /Resources, /MediaBox, /CropBox, /Rotate alone on the root and alone on an intermediate /Pages node, all four together, random mixtures with direct / indirect values and pages that override), repository corpus files; configurations = {5 encryption settings} x {disable,preserve,generate} x "
                        "{7 stream-data settings}; each written by the real `qpdf --linearize --static-id`, read by the extracted Annex F checker, by qpdf --check-linearization and "
                        "--show-linearization; non-trivial = write completed and output <= 150 kB, distinct by (input, configuration). "
+                       "qdf-and-linearize: --qdf with --linearize in both orders (manual: --linearize disables QDF mode). api-sequences: histories of checkLinearization / isLinearized / getAllPages / pushInheritedAttributesToPage / plain and linearized writes to memory on one QPDF object, then a linearized write, on generated documents, their linearized forms and linearized corpus files of other producers. "
                        "bitio: random writeBits/flush and getBits sequences (widths 0..40, values beyond the width) on the real BitWriter/BitStream, the model and the Annex F field reader")
     part_bitio(chk, drv, runner)
-    part_files(chk, runner)
-    part_qdf(chk, runner)
-    part_api(chk, drv, runner)
+    wd = common.workdir("C07")      # emptied once per run: the inputs named by the replays stay until the next run
+    part_files(chk, runner, wd)
+    part_qdf(chk, runner, wd)
+    part_api(chk, drv, runner, wd)
 
 
 def replay(chk, rep):
